@@ -282,6 +282,7 @@ func domSize(r *engine.Run) {
 	lenKey := "len(" + engine.ValKey(eval) + ")"
 	o := ord{}
 	n := 0
+	group := opGroup(r, f)
 	engine.Instrs(f, func(in ssa.Instruction) {
 		c, ok := in.(*ssa.Call)
 		if !ok {
@@ -294,6 +295,10 @@ func domSize(r *engine.Run) {
 				what = "write lock"
 			case recvNamed(sc) == "MerklePatriciaTrie" && (sc.Name() == "insert" || sc.Name() == "insertLeaf" || sc.Name() == "setRoot"):
 				what = sc.Name()
+			case sc != f && inGroup(group, sc) && hasMutationPrimitive(group, sc, 0):
+				// the locked part of Insert moved into a helper of its own: the call is the mutation
+				what = sc.Name() + " (locks and inserts)"
+				n += 2 // stands for the lock and the walk it contains
 			}
 		}
 		if what == "" {
@@ -751,4 +756,32 @@ func sizeGuardIn(g *ssa.Function, p ssa.Value, maxObj *types.Const) bool {
 		}
 	}
 	return any
+}
+
+// hasMutationPrimitive: g (a helper of Insert's group) takes the trie's write lock
+// or calls a walk / setRoot, directly or through another helper of the group.
+func hasMutationPrimitive(group []*ssa.Function, g *ssa.Function, depth int) bool {
+	if depth > 3 {
+		return false
+	}
+	found := false
+	engine.Instrs(g, func(in ssa.Instruction) {
+		c, ok := in.(*ssa.Call)
+		if !ok {
+			return
+		}
+		sc := c.Call.StaticCallee()
+		if sc == nil {
+			return
+		}
+		switch {
+		case sc.Name() == "Lock" && len(c.Call.Args) > 0 && engine.MutexKey(c.Call.Args[0]) == "MerklePatriciaTrie.mutex":
+			found = true
+		case recvNamed(sc) == "MerklePatriciaTrie" && (sc.Name() == "insert" || sc.Name() == "insertLeaf" || sc.Name() == "setRoot"):
+			found = true
+		case sc != g && inGroup(group, sc) && hasMutationPrimitive(group, sc, depth+1):
+			found = true
+		}
+	})
+	return found
 }
